@@ -33,6 +33,9 @@ HART_COLS = ["Container", "Tabulator", "Batch Name", "Number of Ballots"]
 
 # ------------------------------------------------------------------------------------------- cases
 
+SAMPLE_KINDS = ["list", "list", "array", "array", "tuple", "iter", "gen"]
+
+
 def mk_rows(vendor, sizes, rng=None, style="int"):
     """distinct (tab, batch) labels; extra = [cart, tray] (Dominion) or [container] (Hart)"""
     rows = []
@@ -112,8 +115,11 @@ def cvr_case(vendor, sizes, max_cards, rng, sample=None, style="int", drop=0, we
     if sample is None:
         k = rng.randint(0, min(10, len(cvrs)))
         sample = rng.sample(range(len(cvrs)), k)
-    return {"kind": "cvrs", "vendor": vendor, "rows": rows, "max_cards": max_cards, "n_cvrs": n_cvrs,
-            "cvrs": cvrs, "sample": [int(s) for s in sample], "wellformed": wellformed}
+    out = {"kind": "cvrs", "vendor": vendor, "rows": rows, "max_cards": max_cards, "n_cvrs": n_cvrs,
+           "cvrs": cvrs, "sample": [int(s) for s in sample], "wellformed": wellformed}
+    if rng is not None:
+        out["container"] = rng.choice(SAMPLE_KINDS)
+    return out
 
 
 def rand_sizes(rng):
@@ -199,7 +205,7 @@ def manifest_case(rng, vendor, sizes, style=None):
     M, c = rand_bounds(rng, T)
     style = style or rng.choice(["int", "int", "str", "one", "names"])
     return {"kind": "manifest", "vendor": vendor, "rows": mk_rows(vendor, sizes, style=style), "max_cards": M,
-            "n_cvrs": c, "all": all_range(M), "sample": rand_sample(rng, vendor, M)}
+            "n_cvrs": c, "all": all_range(M), "sample": rand_sample(rng, vendor, M), "container": rng.choice(SAMPLE_KINDS)}
 
 
 def malform(rng, case):
@@ -424,6 +430,17 @@ def phantom_ok(c):
     return bool(c.phantom) and c.votes == {}
 
 
+def _cont(case, items):
+    """the sample numbers as the documented list / numpy array, or as a tuple / one-shot iterator (a `map` shifting
+    1-based numbers, a generator picking the newly drawn ones): every lookup makes one pass over them"""
+    from ..core import container
+    k = case.get("container")
+    if k == "array":
+        import numpy as np
+        return np.array(list(items), dtype=int)
+    return container(k, items)
+
+
 def impl(case):
     from shangrla.core.Audit import CVR
     vendor = case["vendor"]
@@ -458,7 +475,7 @@ def impl(case):
             except Exception as e:  # noqa
                 look.append({"st": "err", "err": err_kind(e)})
         try:
-            cards, so, ph = V.sample_from_manifest(m, smp_arg())
+            cards, so, ph = V.sample_from_manifest(m, (smp_arg() if case.get("sample_np") else _cont(case, case["sample"])))
             smp = {"st": "ok", "cards": [canon_mcard(vendor, c) for c in cards], "order": canon_order(so),
                    "phantoms": [x.id for x in ph], "_phantoms_ok": all(phantom_ok(x) for x in ph)}
         except Exception as e:  # noqa
@@ -467,7 +484,7 @@ def impl(case):
     # kind == "cvrs"
     cvr_list = [CVR(id=c["id"], card_in_batch=c["cib"], phantom=c["phantom"]) for c in case["cvrs"]]
     try:
-        cards, so, cs, ph = V.sample_from_cvrs(cvr_list, m, smp_arg())
+        cards, so, cs, ph = V.sample_from_cvrs(cvr_list, m, (smp_arg() if case.get("sample_np") else _cont(case, case["sample"])))
         pos = {id(c): i for i, c in enumerate(cvr_list)}
         smp = {"st": "ok", "cards": [[cell(x) if x is not None else "None" for x in c] for c in cards],
                "order": canon_order(so),
